@@ -1,5 +1,10 @@
 import JugModel.Lemmas.Loop
 import JugModel.Lemmas.LoopConf
+import JugModel.Lemmas.LoopGlobal
+import JugModel.Props.C01
+import JugModel.Props.C11
+import JugModel.Props.C12
+import JugModel.Props.C13
 /-!
 # The scheduling loop of one worker, for task lists of any length
 
@@ -33,6 +38,83 @@ theorem loop_conforms (fl : LFlags) (deps : List (List Task)) (nr : Nat) (answer
     lconforms ⟨⟨fl.keepGoing, fl.keepFailed⟩, deps, loopTrace fl deps nr answers⟩ = true :=
   Jug.Loop.loop_conforms fl deps nr answers
 
+/-- **composition**: the scan ghost of a history of any number of workers is, worker by worker, the ghost of that worker's own events; if
+    every worker's projection keeps the obligation wherever its process ends, the whole history satisfies `scanRun` -/
+theorem scanRun_of_workers {V : Type} (deps : List (List Task)) (kg : Worker → Bool) (evs : List (Ev V))
+    (h : ∀ w, (G (kg w) deps (Scan.init, true) (proj w evs)).2 = true) :
+    scanRun deps.length (fun t => deps.getD t []) kg Scan.init evs = true :=
+  scanRun_of_local deps kg evs Scan.init (fun _ => (Scan.init, true)) (fun w t => ⟨rfl, rfl⟩) h
+
+/-- every worker either takes no part in the history or its events are those of one run of the loop program (any flags with the worker's
+    --keep-going setting, any number >= 1 of wait cycles, any answers; hook marks have no counterpart in a history) up to the end of its process -/
+def LoopWorkers {V : Type} (fl : Worker → Flags) (deps : List (List Task)) (evs : List (Ev V)) : Prop :=
+  ∀ w, proj w evs = [] ∨ ∃ (lf : LFlags) (nr : Nat) (answers : List Nat), 1 ≤ nr ∧ lf.keepGoing = (fl w).keepGoing ∧
+    proj w evs = strip (loopTrace lf deps nr answers)
+
+/-- workers that run the loop program keep the scan obligation of the global history: `loop_scans_all` per worker, `scanRun_of_workers` together -/
+theorem scanRun_of_loopWorkers {V : Type} (fl : Worker → Flags) (deps : List (List Task)) (evs : List (Ev V)) (h : LoopWorkers fl deps evs) :
+    scanRun deps.length (fun t => deps.getD t []) (kgOf fl) Scan.init evs = true := by
+  apply scanRun_of_workers deps (kgOf fl) evs
+  intro w
+  rcases h w with h | ⟨lf, nr, answers, hnr, hkg, h⟩
+  · rw [h]; rfl
+  · rw [h, G_strip]
+    have := Jug.Loop.loop_scans_all lf deps nr hnr answers
+    simp only [lscanOK] at this
+    simp only [kgOf, ← hkg]
+    exact this
+
+/-- **completeness for workers that run the loop program** (C01, the whole chain): a failure-, stop- and crash-free history of any number
+    `W >= 1` of such workers under any interleaving, all of which have left with status 0, ends with a result for every task. No scan
+    obligation is assumed any more. -/
+theorem exec_complete_of_loop_workers {V : Type} [DecidableEq V] (P : Prog V) (fl : Worker → Flags) (res₀ : Task → Option V) (W : Nat) (hW : 0 < W)
+    (deps : List (List Task)) (hlt : ∀ t d, d ∈ deps.getD t [] → d < t) (s : Sys V) (evs : List (Ev V))
+    (hr : CleanSteps P fl (initSys res₀) evs s)
+    (hw : ∀ e ∈ evs, ∀ w, evWorker e = some w → w < W)
+    (hloop : LoopWorkers fl deps evs)
+    (hq : ∀ w, w < W → s.wk w = .exited 0) :
+    ∀ t, t < deps.length → s.res t ≠ none :=
+  Jug.C01.exec_complete P fl res₀ deps.length W hW (fun t => deps.getD t []) hlt s evs hr hw (scanRun_of_loopWorkers fl deps evs hloop) hq
+
+/-- **with failing tasks** (C11): --keep-going workers that run the loop program complete everything that is not blocked by a failed task -/
+theorem keep_going_completes_of_loop_workers {V : Type} [DecidableEq V] (P : Prog V) (fl : Worker → Flags) (res₀ : Task → Option V) (W : Nat) (hW : 0 < W)
+    (deps : List (List Task)) (hlt : ∀ t d, d ∈ deps.getD t [] → d < t) (s : Sys V) (evs : List (Ev V))
+    (hr : FSteps P fl (initSys res₀) evs s)
+    (hw : ∀ e ∈ evs, ∀ w, evWorker e = some w → w < W)
+    (hloop : LoopWorkers fl deps evs)
+    (hq : ∀ w, w < W → ∃ c, s.wk w = .exited c) :
+    ∀ t, t < deps.length → s.res t ≠ none ∨
+      Blocked (fun t => deps.getD t []) (scanFold (fun t => deps.getD t []) (kgOf fl) Scan.init evs).failedT t :=
+  Jug.C11.keep_going_completes_independents P fl res₀ deps.length W hW (fun t => deps.getD t []) hlt s evs hr hw (scanRun_of_loopWorkers fl deps evs hloop) hq
+
+/-- **after kills and `cleanup --locks-only`** (C13): fresh workers that run the loop program complete the whole computation -/
+theorem recovery_completes_of_loop_workers {V : Type} [DecidableEq V] (P : Prog V) (fl : Worker → Flags) (W : Nat) (deps : List (List Task))
+    (hlt : ∀ t d, d ∈ deps.getD t [] → d < t) (s₀ s : Sys V) (evs : List (Ev V))
+    (hi : Inv s₀) (hfree : ∀ t, s₀.lock t = .free)
+    (hwk : ∀ w, s₀.wk w = .idle ∨ s₀.wk w = .crashed ∨ ∃ c, s₀.wk w = .exited c)
+    (hout : ∀ w, W ≤ w → s₀.wk w = .idle) (w₀ : Worker) (hw₀ : w₀ < W) (hidle : s₀.wk w₀ = .idle)
+    (hr : CleanSteps P fl s₀ evs s)
+    (hw : ∀ e ∈ evs, ∀ w, evWorker e = some w → w < W)
+    (hloop : LoopWorkers fl deps evs)
+    (hq : ∀ w, w < W → (∃ c, s.wk w = .exited c) ∨ s.wk w = .crashed) :
+    ∀ t, t < deps.length → s.res t ≠ none :=
+  Jug.C13.recovery_completes P fl deps.length W (fun t => deps.getD t []) hlt s₀ s evs hi hfree hwk hout w₀ hw₀ hidle hr hw
+    (scanRun_of_loopWorkers fl deps evs hloop) hq
+
+/-- **after stop requests** (C12): any other or later workers that run the loop program finish the remaining tasks -/
+theorem continuation_completes_of_loop_workers {V : Type} [DecidableEq V] (P : Prog V) (fl : Worker → Flags) (W : Nat) (deps : List (List Task))
+    (hlt : ∀ t d, d ∈ deps.getD t [] → d < t) (s₀ s : Sys V) (evs : List (Ev V))
+    (hi : Inv s₀) (hfree : ∀ t, s₀.lock t = .free)
+    (hwk : ∀ w, s₀.wk w = .idle ∨ s₀.wk w = .crashed ∨ ∃ c, s₀.wk w = .exited c)
+    (hout : ∀ w, W ≤ w → s₀.wk w = .idle) (w₀ : Worker) (hw₀ : w₀ < W) (hidle : s₀.wk w₀ = .idle)
+    (hr : CleanSteps P fl s₀ evs s)
+    (hw : ∀ e ∈ evs, ∀ w, evWorker e = some w → w < W)
+    (hloop : LoopWorkers fl deps evs)
+    (hq : ∀ w, w < W → (∃ c, s.wk w = .exited c) ∨ s.wk w = .crashed) :
+    ∀ t, t < deps.length → s.res t ≠ none :=
+  Jug.C12.continuation_completes P fl deps.length W (fun t => deps.getD t []) hlt s₀ s evs hi hfree hwk hout w₀ hw₀ hidle hr hw
+    (scanRun_of_loopWorkers fl deps evs hloop) hq
+
 /-- the loop program's fuel is sufficient: giving `outer` more passes than there are tasks changes nothing -/
 theorem loop_fuel_sufficient (fl : LFlags) (dp : Task → List Task) (nr f : Nat) (prev : Option Task) (e : Env) (failures : Bool)
     (ts : List Task) (h : ts.length < f) : outer fl dp nr f prev e failures ts = outer fl dp nr (f + 1) prev e failures ts :=
@@ -55,5 +137,14 @@ example : loopTrace ⟨false, false, false, false⟩ [[], [0], [1]] 1 [0, 0, 0, 
 example : loopTrace ⟨false, false, false, false⟩ [[], [0]] 1 [0, 0, 0, 0] =
     [.ev (.canLoad 0 0 false), .ev (.canLoad 0 0 false), .ev (.canLoad 0 0 false), .ev (.lock 0 0 false), .ev (.canLoad 0 0 false),
      .ev (.canLoad 0 0 false), .ev (.canLoad 0 0 false), .ev (.canLoad 0 0 false), .ret false] := by rfl
+
+/-- non-vacuity of the composition: one worker, one task - the global history is accepted by the execution model, its projection is the
+    (hook-free) trace of the loop program, and the worker leaves with status 0 -/
+example : proj (V := Nat) 0 [.canLoad 0 0 false, .canLoad 0 0 false, .lock 0 0 true, .canLoad 0 0 false, .begin_ 0 0, .endOk 0 0 5, .dump 0 0 5, .unlock 0 0, .exit 0 0]
+    = strip (loopTrace ⟨false, false, false, false⟩ [[]] 1 [0, 0, 1, 0, 0]) := by rfl
+
+example : ∃ s, run (V := Nat) { n := 1, deps := fun _ => [], f := fun _ _ => 5 } (fun _ => ⟨false, false⟩) (initSys (fun _ => none))
+      [.canLoad 0 0 false, .canLoad 0 0 false, .lock 0 0 true, .canLoad 0 0 false, .begin_ 0 0, .endOk 0 0 5, .dump 0 0 5, .unlock 0 0, .exit 0 0] = some s
+    ∧ s.wk 0 = .exited 0 ∧ s.res 0 = some 5 := ⟨_, rfl, by decide⟩
 
 end Jug.LoopBridge
